@@ -109,9 +109,21 @@ def case_script(cid, decl, env, actions, cpu=None):
 _exe_cache = {}
 
 
+def _has_verbatim():
+    """-> True when user_input::verbatim() exists on this tree (compile probe)"""
+    if "verbatim" not in _exe_cache:
+        try:
+            build.build_exe("gasan", ["opt_verbatim_probe.cpp"])
+            _exe_cache["verbatim"] = True
+        except build.BuildError:
+            _exe_cache["verbatim"] = False
+    return _exe_cache["verbatim"]
+
+
 def optdrv(tag="gasan"):
     if tag not in _exe_cache:
-        _exe_cache[tag] = build.build_exe(tag, ["optdrv.cpp"], build.OPTIONS_SRCS)
+        _exe_cache[tag] = build.build_exe(tag, ["optdrv.cpp"], build.OPTIONS_SRCS,
+                                          extra=[] if _has_verbatim() else ["-DOPT_NO_VERBATIM"])
     return _exe_cache[tag]
 
 
